@@ -25,15 +25,13 @@ PROP = "C07"
 
 
 def run(c):
-    d = L.build_pipeline(c.tier, c.seed)
+    d, fd, ed = A.together(lambda: L.build_pipeline(c.tier, c.seed), lambda: A.faults_pipeline(c.tier, c.seed), lambda: A.events_pipeline(c.tier, c.seed))
     L.evaluate(c, PROP, d)
     pred, mut = M.CONTROLS[PROP]
     controls = [L.negative_control(d, c.seed, pred, mut)]
-    fd = A.faults_pipeline(c.tier, c.seed)
     programs, cases, results, accepted = A.eval_faults(c, PROP, fd)
     controls.append(A.fault_negative_control(c, PROP, programs, cases, results, accepted, c.seed))
     # requests of the C31 matrix that make nothing durable (failing element of a bulk, failing commit...)
-    ed = A.events_pipeline(c.tier, c.seed)
     import json
     eres = json.load(open(os.path.join(ed, "result.json")))
     cells = {x["id"]: x for x in json.load(open(os.path.join(ed, "cells.json")))}
